@@ -253,7 +253,7 @@ def _build_history(ctx, rng, path, orphan):
     """a table with a few commits; `orphan`: None | 'failed' (a commit whose pointer write fails cleanly) |
     'crashed' (the process dies between writing the new metadata file and flipping the pointer — a crash image)"""
     t = tablekit.create(path)
-    n = rng.randint(1, 4)
+    n = rng.choice([1, 2, 3, 4, 4, 11, 12])
     for i in range(n):
         t.append_records(tablekit.rows(rng.randint(1, 3), start=i * 10))
     if rng.random() < 0.3 and n >= 2:
@@ -406,6 +406,69 @@ def _histories(ctx, rep):
         shutil.rmtree(base, ignore_errors=True)
 
 
+def _histories_s3(ctx, rep):
+    """the same on the S3 backend (in-memory store paging listings at 2 keys; CAS and plain commit paths): pointer object deleted,
+    emptied, garbage, legacy number of a missing version, parseable but dangling — then open / create / append / collect"""
+    from datashard import create_table, load_table
+    from .. import fakes3
+    rng = ctx.rng("hist-s3")
+    for cas in (True, False):
+        for kind in ("delete", "empty", "garbage", "legacy-missing", "dangling"):
+            for op in ("open", "create", "append", "collect"):
+                if not ctx.thorough and not ctx.intensify and rng.random() < 0.35:
+                    continue
+                with fakes3.S3Env(cas=cas) as env, fakes3.NoSleep():
+                    loc = "wh/t"
+                    t = tablekit.create(loc)
+                    for i in range(rng.choice([1, 2, 3, 11])):
+                        t.append_records(tablekit.rows(rng.randint(1, 2), start=i * 10))
+                    store = reader.S3Store(env.fake, loc)
+                    v = reader.view(store)
+                    before = {"uuid": v["uuid"], "snaps": sorted(s_["id"] for s_ in v["snaps"]), "rows": v["rows"],
+                              "version": int(reader.META_RE.match(v["name"]).group(1))}
+                    del t
+                    hk = [k for k in env.fake.objects if k.endswith("metadata.version-hint.text")][0]
+                    if kind == "delete":
+                        del env.fake.objects[hk]
+                    else:
+                        body = {"empty": b"", "garbage": b"not a pointer at all", "legacy-missing": b"77",
+                                "dangling": b"v%d-deadbeef.metadata.json" % (before["version"] + 5)}[kind]
+                        env.fake.put_object(Bucket="bkt", Key=hk, Body=body)
+                    rep.evaluations += 1
+                    rep.nontrivial(["hist-s3", cas, kind, op, len(before["snaps"])])
+                    rep.distribution[f"hist-s3:{kind}"] += 1
+                    case = {"kind": "history-s3", "conditional_writes": cas, "damage": kind, "op": op, "committed_snapshots": len(before["snaps"])}
+                    try:
+                        t2 = create_table(loc, tablekit.schema()) if op == "create" else load_table(loc)
+                        after = _lib_state(t2)
+                        expect_rows = list(before["rows"])
+                        if op == "append":
+                            extra = tablekit.rows(1, start=5000)
+                            t2.append_records(extra)
+                            expect_rows = sorted(expect_rows + [reader.rowkey(r) for r in extra])
+                            after = _lib_state(t2)
+                            after["snaps"] = [s_ for s_ in after["snaps"] if s_ in before["snaps"]]
+                        if op == "collect":
+                            t2.garbage_collect(grace_period_ms=0)
+                            after = _lib_state(t2)
+                    except Exception as e:      # noqa: BLE001
+                        if op == "collect" and type(e).__name__ == "GarbageCollectionAborted" and "names a missing metadata file" in str(e):
+                            rep.distribution["hist-s3:collect-aborted-on-dangling-pointer"] += 1
+                            continue
+                        rep.violate(f"C10:pointer-damage:{kind}:raises", f"S3 (conditional writes {cas}): {op} after pointer damage '{kind}' raises "
+                                    f"{type(e).__name__}: {str(e)[:120]}", case)
+                        continue
+                    bad = []
+                    if after["uuid"] != before["uuid"]:
+                        bad.append("identity changed (table re-initialised)")
+                    if after["snaps"] != before["snaps"]:
+                        bad.append(f"snapshot list {len(after['snaps'])} vs {len(before['snaps'])} committed")
+                    if after["rows"] != expect_rows:
+                        bad.append(f"rows {len(after['rows'])} vs {len(expect_rows)} expected")
+                    if bad:
+                        rep.violate(f"C10:pointer-damage:{kind}:state", f"S3 (conditional writes {cas}): {op} after pointer damage '{kind}': " + "; ".join(bad), case)
+
+
 def _classify(kind, with_orphan, what):
     if kind == "unicode-digit" and what == "raises":
         return "C10:hint-text-isdigit-not-int"
@@ -475,5 +538,6 @@ def run(ctx, model_ok):
     _check_recover(ctx, rep, model_ok)
     _check_cvi(ctx, rep, model_ok)
     _histories(ctx, rep)
+    _histories_s3(ctx, rep)
     _listing_fault(ctx, rep)
     return rep
